@@ -294,6 +294,12 @@ def run(ctx, eng):
            'window only', ok, 'frame.stream_id selects the window',
            node=f7.node)
     check_settings_delta(ctx, eng)
+    cm.include(ctx, eng, 'C11',
+               lambda o: o.rule in ('FLOW.queue', 'FLOW.ack-source') or (
+                   o.rule == 'COH.apply-map' and
+                   o.desc.startswith('remote INITIAL_WINDOW_SIZE ')),
+               'the peer\'s INITIAL_WINDOW_SIZE reaches the stream windows '
+               'when its SETTINGS frame is acknowledged')
     flow.guard_increment_rule(ctx, eng)
     ctx.assume('window = initial + credits - debits over unbounded '
                'histories follows from these clauses by induction; the '
